@@ -106,7 +106,7 @@ func init() {
 		ID:    "C13",
 		Level: "model_checking",
 		Rule: "cases: every history of 1..N operations (quick: N=5 for the name pair (a,'a b'), 4 for the other pairs; thorough: N=6) containing one graceful leave (Snapshotter.Leave) at any position, or two with a restart in between, over join (two addresses)/leave/failed events of two members, clock witness 2^63, +600 ms (ticker tick, flush), shutdown+reopen (so: restarts before the leave, events and ticks between the leave and the shutdown, more events and a second restart after it); name pairs (a,'a b'), ('b ',x:y), ('alive: z',leave), ('','not-alive: q'), each short and stretched to >100 bytes (compaction while members are alive); each history x rejoinAfterLeave in {false,true} is one case and is run on the real Snapshotter under the compaction thresholds {1, 64, 128Ki}, always ending with shutdown+reopen. " +
-			"A case is non-trivial if at least one member is known alive at the moment of the leave. Outcomes = (rejoin setting, size of the set at the leave, number of operations between leave and shutdown, restarts after the leave, compactions at/after the leave per threshold).",
+			"A case is non-trivial if at least one member is known alive at the moment of the leave. Outcomes = (rejoin setting, size of the set at the leave, number of operations between leave and shutdown, restarts after the leave, compactions at/after the leave per threshold). concurrent/leave-during-slow-write: the snapshot goroutine is inside one write that takes 600 ms of virtual time (vos SlowAt) when Leave is called 0/100/300/599 ms into it, all interleavings within the preemption bound (quick 2, thorough 4) of the event producer and the leaver, then a later join, shutdown and reopen, for both rejoin settings.",
 		Assumptions: []string{
 			"'the snapshot keeps up': one event is handed to the snapshotter, then the system runs to quiescence before the next one; Leave() is called at a quiescent point (Serf.Leave calls it synchronously)",
 			"restart = clean shutdown (close of the shutdown channel, Wait) followed by NewSnapshotter on the same directory with the same rejoinAfterLeave setting",
@@ -124,6 +124,8 @@ func c13runCheck(ctx *vc.Ctx) {
 	if ctx.Replay != nil {
 		var rp c13replay
 		if json.Unmarshal(ctx.Replay, &rp) != nil || rp.Check != "C13" {
+			c13concurrent(ctx) // a schedule artefact: Explore replays the scenario it names
+			c13slowDisk(ctx)
 			return
 		}
 		out := c13one(ctx, ctx.Scn("replay", "cases"), rp.Ops, rp.Rejoin)
@@ -131,6 +133,7 @@ func c13runCheck(ctx *vc.Ctx) {
 		return
 	}
 	c13concurrent(ctx)
+	c13slowDisk(ctx)
 	pairs := [][2]string{{"a", "a b"}, {"b ", "x:y"}, {"alive: z", "leave"}, {"", "not-alive: q"}}
 	short, long := 4, 5
 	if ctx.Thorough() {
